@@ -337,7 +337,7 @@ Why(C, X, e) ==
              ELSE IF X.pc[p] # "main" THEN "start-" \o byCause
              ELSE IF X.st[n] = "cancelled" THEN "start-after-cancel"
              ELSE IF X.st[n] = "idle" THEN "start-not-scheduled"
-             ELSE IF ~HasRoom(C, X, p) THEN "window-full"
+             ELSE IF ~HasRoom(C, X, p) THEN "window-full" \o (IF IsSched(C, n) THEN "-nested" ELSE "")
              ELSE "start-other")
        [] e.k \in {"end", "raise", "self-cancel"} ->
             (IF X.st[n] \in {"cancelling", "cancelled"} THEN "end-after-cancel-" \o byCause
@@ -384,7 +384,8 @@ Why(C, X, e) ==
             (IF e.v = "other" THEN "verdict-foreign-exception" \o lsuffix
              ELSE IF ~Over(X, n) /\ e.v = "cancelled" /\ ~X.creq[n] /\ X.cause[n] # "cancelled"
                   THEN "verdict-cancelled-without-cancellation" \o lsuffix   \* CancelledError out of a run nobody cancelled
-             ELSE IF ~Over(X, n) /\ e.v = "cancelled" THEN "cancelled-run-ends-early-" \o byCause
+             ELSE IF ~Over(X, n) /\ e.v = "cancelled"
+                  THEN "cancelled-run-ends-early-" \o byCause \o (IF n >= 2 /\ n <= C.n /\ C.win[p] > 0 THEN "-in-window" ELSE "")
              ELSE IF ~Over(X, n) THEN "run-exc-early"
              ELSE IF X.st[n] = "ok" THEN "verdict-raise-instead-of-return" \o Claim(e, n) \o "-spec-" \o X.cause[n]
              ELSE IF X.st[n] = "exc" /\ X.res[n] # <<"exc", e.i>> THEN "verdict-exception-identity" \o Claim(e, n) \o "-spec-" \o X.cause[n]
